@@ -12,6 +12,7 @@ def main():
     from vf.result import Result, jdump
     t0 = time.time()
     res = Result()
+    Result.primary = None
     try:
         env.enter_workdir()
         mod = importlib.import_module("vf.props." + pid.lower())
@@ -30,8 +31,10 @@ def main():
             if r is not None:
                 res = r
     except env.HarnessError as e:
+        res = Result.primary or res                     # keep what the shard had found so far
         res.error("HarnessError: %s" % e)
     except BaseException:
+        res = Result.primary or res
         res.error("worker crashed:\n" + traceback.format_exc())
     d = res.to_json()
     d["wall_s"] = time.time() - t0
